@@ -3,11 +3,96 @@
 //! from outside), which emits one `tracing` event per map event with the event name as target.
 //! A thread-local `tracing` subscriber counts the ones that matter here.
 
-use std::{cell::RefCell, collections::BTreeMap};
-use tracing::{span, subscriber::Interest, Event, Metadata};
+//!
+//! It also records per-packet rejections: the receiver's `tracing::debug!(non_fatal_error = %err,
+//! ?packet)` (stream/recv/state.rs) for stream packets that failed to decrypt, and the
+//! `stream_control_packet_received` event with `is_authenticated = false` for control packets.
+
+use std::{cell::RefCell, collections::BTreeMap, fmt::Write as _};
+use tracing::{field::Field, span, subscriber::Interest, Event, Metadata};
 
 thread_local! {
     static COUNTS: RefCell<BTreeMap<&'static str, u64>> = RefCell::new(BTreeMap::new());
+    static REJECTS: RefCell<Rejects> = RefCell::new(Rejects::default());
+}
+
+/// per-packet authentication failures reported by the receivers during one run
+#[derive(Default, Clone, Debug)]
+pub struct Rejects {
+    /// stream packets: (error text, Debug text of the parsed packet)
+    pub stream: Vec<(String, String)>,
+    /// control packets that failed authentication: (packet_number, packet_len, control_data_len)
+    pub control: Vec<(u64, u64, u64)>,
+    pub control_seen: u64,
+}
+
+const RECV_STATE_TARGET: &str = "s2n_quic_dc::stream::recv::state";
+const CONTROL_EVENT: &str = "stream_control_packet_received";
+
+fn is_reject_callsite(meta: &Metadata<'_>) -> bool {
+    (meta.target() == RECV_STATE_TARGET && meta.is_event() && meta.fields().field("non_fatal_error").is_some()) || meta.target() == CONTROL_EVENT
+}
+
+#[derive(Default)]
+struct StreamVisitor {
+    err: String,
+    packet: String,
+}
+
+impl tracing::field::Visit for StreamVisitor {
+    fn record_debug(&mut self, field: &Field, value: &dyn std::fmt::Debug) {
+        match field.name() {
+            "non_fatal_error" => {
+                let _ = write!(self.err, "{value:?}");
+            }
+            "packet" => {
+                let _ = write!(self.packet, "{value:?}");
+            }
+            _ => {}
+        }
+    }
+}
+
+/// tiny fixed buffer: the control event fires for every control packet, so no heap here
+struct Small {
+    buf: [u8; 24],
+    len: usize,
+}
+
+impl std::fmt::Write for Small {
+    fn write_str(&mut self, s: &str) -> std::fmt::Result {
+        for b in s.bytes() {
+            if self.len < self.buf.len() {
+                self.buf[self.len] = b;
+                self.len += 1;
+            }
+        }
+        Ok(())
+    }
+}
+
+#[derive(Default)]
+struct ControlVisitor {
+    pn: u64,
+    len: u64,
+    cd: u64,
+    auth: bool,
+}
+
+impl tracing::field::Visit for ControlVisitor {
+    fn record_debug(&mut self, field: &Field, value: &dyn std::fmt::Debug) {
+        let mut b = Small { buf: [0; 24], len: 0 };
+        let _ = write!(b, "{value:?}");
+        let txt = &b.buf[..b.len];
+        let num = || txt.iter().filter(|c| c.is_ascii_digit()).fold(0u64, |a, c| a.wrapping_mul(10).wrapping_add((*c - b'0') as u64));
+        match field.name() {
+            "packet_number" => self.pn = num(),
+            "packet_len" => self.len = num(),
+            "control_data_len" => self.cd = num(),
+            "is_authenticated" => self.auth = txt == b"true",
+            _ => {}
+        }
+    }
 }
 
 const TARGETS: &[&str] = &[
@@ -41,14 +126,14 @@ pub struct Capture;
 
 impl tracing::Subscriber for Capture {
     fn register_callsite(&self, meta: &'static Metadata<'static>) -> Interest {
-        if interesting(meta.target()).is_some() {
+        if interesting(meta.target()).is_some() || is_reject_callsite(meta) {
             Interest::always()
         } else {
             Interest::never()
         }
     }
     fn enabled(&self, meta: &Metadata<'_>) -> bool {
-        interesting(meta.target()).is_some()
+        interesting(meta.target()).is_some() || is_reject_callsite(meta)
     }
     fn new_span(&self, _span: &span::Attributes<'_>) -> span::Id {
         span::Id::from_u64(1)
@@ -56,8 +141,25 @@ impl tracing::Subscriber for Capture {
     fn record(&self, _span: &span::Id, _values: &span::Record<'_>) {}
     fn record_follows_from(&self, _span: &span::Id, _follows: &span::Id) {}
     fn event(&self, event: &Event<'_>) {
-        if let Some(t) = interesting(event.metadata().target()) {
+        let target = event.metadata().target();
+        if let Some(t) = interesting(target) {
             COUNTS.with(|c| *c.borrow_mut().entry(t).or_insert(0) += 1);
+        } else if target == CONTROL_EVENT {
+            let mut v = ControlVisitor { auth: true, ..Default::default() };
+            event.record(&mut v);
+            REJECTS.with(|r| {
+                let mut r = r.borrow_mut();
+                r.control_seen += 1;
+                if !v.auth {
+                    r.control.push((v.pn, v.len, v.cd));
+                }
+            });
+        } else if target == RECV_STATE_TARGET {
+            let mut v = StreamVisitor::default();
+            event.record(&mut v);
+            if !v.err.is_empty() {
+                REJECTS.with(|r| r.borrow_mut().stream.push((v.err, v.packet)));
+            }
         }
     }
     fn enter(&self, _span: &span::Id) {}
@@ -71,6 +173,11 @@ pub fn install() -> tracing::subscriber::DefaultGuard {
 
 pub fn reset() {
     COUNTS.with(|c| c.borrow_mut().clear());
+    REJECTS.with(|r| *r.borrow_mut() = Rejects::default());
+}
+
+pub fn take_rejects() -> Rejects {
+    REJECTS.with(|r| std::mem::take(&mut *r.borrow_mut()))
 }
 
 pub fn take() -> BTreeMap<String, u64> {
